@@ -240,6 +240,22 @@ func Run(name string) string {
 		go func() { defer wg.Done(); l.m["k"] = 1 }()
 		go func() { defer wg.Done(); _ = l.m["k"] }()
 		wg.Wait()
+	case "race-map-range": // ranging over a map while another goroutine inserts
+		l.m["a"] = 1
+		wg.Add(2)
+		go func() {
+			defer wg.Done()
+			for range l.m {
+			}
+		}()
+		go func() { defer wg.Done(); l.m["b"] = 2 }()
+		wg.Wait()
+	case "race-delete": // delete vs lookup
+		l.m["a"] = 1
+		wg.Add(2)
+		go func() { defer wg.Done(); delete(l.m, "a") }()
+		go func() { defer wg.Done(); _, _ = l.m["a"] }()
+		wg.Wait()
 	case "norace-mutex":
 		for i := 0; i < 2; i++ {
 			wg.Add(1)
